@@ -36,7 +36,7 @@ theorem parse_plain (cs : List Char) (tok : Tok) (c : Char) (rest : List Char) (
 /-- `unit:ISO` -/
 theorem parse_prefixed1 (u : DUnit) (hu : u ≠ .eternity) (iso : List Char) (tok : Tok)
     (hlex : lexIso iso = some tok) (hnc : ':' ∉ iso) (base : Period)
-    (hbase : parseIsoPeriod iso = .ok base) (hw : ¬ unitWeight base.unit > unitWeight u) :
+    (hbase : parseIsoPeriod iso = .ok base) (hw : finerThanDate u base.unit = false) :
     parsePeriod (u.name.toList ++ ':' :: iso) = .ok ⟨u, base.start, 1⟩ := by
   obtain ⟨h1, ⟨c, cs, hcs, hc⟩, h3, h4⟩ := lexIso_unit_prefix u hu iso
   unfold parsePeriod
@@ -44,12 +44,12 @@ theorem parse_prefixed1 (u : DUnit) (hu : u ≠ .eternity) (iso : List Char) (to
   rw [if_neg (by rw [h1]; simp)]
   rw [splitOn_append ':' _ _ h3, splitOn_none ':' _ hnc]
   simp only [parseUnitForm, sizeField, hlex, Option.isNone_some, Bool.false_eq_true, if_false, h4, hbase]
-  cases u <;> first | exact absurd rfl hu | (simp only [if_neg hw])
+  cases u <;> first | exact absurd rfl hu | (simp only [hw, Bool.false_eq_true, if_false])
 
 /-- `unit:ISO:size` -/
 theorem parse_prefixed2 (u : DUnit) (hu : u ≠ .eternity) (iso : List Char) (tok : Tok)
     (hlex : lexIso iso = some tok) (hnc : ':' ∉ iso) (base : Period)
-    (hbase : parseIsoPeriod iso = .ok base) (hw : ¬ unitWeight base.unit > unitWeight u) (n : Nat) :
+    (hbase : parseIsoPeriod iso = .ok base) (hw : finerThanDate u base.unit = false) (n : Nat) :
     parsePeriod (u.name.toList ++ ':' :: (iso ++ ':' :: natDigits n)) = .ok ⟨u, base.start, n⟩ := by
   obtain ⟨h1, ⟨c, cs, hcs, hc⟩, h3, h4⟩ := lexIso_unit_prefix u hu (iso ++ ':' :: natDigits n)
   have hnn : ':' ∉ natDigits n := fun hm => (natDigits_isDig n _ hm).ne_colon rfl
@@ -58,6 +58,6 @@ theorem parse_prefixed2 (u : DUnit) (hu : u ≠ .eternity) (iso : List Char) (to
   rw [if_neg (by rw [h1]; simp)]
   rw [splitOn_append ':' _ _ h3, splitOn_append ':' _ _ hnc, splitOn_none ':' _ hnn]
   simp only [parseUnitForm, sizeField, hlex, Option.isNone_some, Bool.false_eq_true, if_false, h4, hbase, pyInt_natDigits]
-  cases u <;> first | exact absurd rfl hu | (simp only [if_neg hw])
+  cases u <;> first | exact absurd rfl hu | (simp only [hw, Bool.false_eq_true, if_false])
 
 end OFCore
